@@ -382,6 +382,32 @@ class _rewrite_captured_vars(ast.NodeTransformer):
         return any([a == a_name for frames in self._ignore_stack for a in frames])
 
 
+def _plainly_called(node: ast.Call) -> bool:
+    "Is this a called lambda that python binds by position only (the shape that is inlined)?"
+    largs = node.func.args  # type: ignore
+    return (
+        len(largs.args) == len(node.args)
+        and len(node.keywords) == 0
+        and not (largs.posonlyargs or largs.kwonlyargs or largs.vararg or largs.kwarg)
+    )
+
+
+def _inner_binders(node: ast.AST) -> set:
+    "Names bound inside `node` by lambdas and comprehensions that may stay in the tree"
+    if isinstance(node, ast.Call) and isinstance(node.func, ast.Lambda) and _plainly_called(node):
+        if len(_inner_binders(node.func.body)) == 0:
+            # Nothing can stop this call from being inlined: its parameters disappear.
+            return set().union(*[_inner_binders(a) for a in node.args])
+    out = set()
+    if isinstance(node, ast.Lambda):
+        out |= {a.arg for a in node.args.args}
+    elif isinstance(node, ast.comprehension):
+        out |= {n.id for n in ast.walk(node.target) if isinstance(n, ast.Name)}
+    for c in ast.iter_child_nodes(node):
+        out |= _inner_binders(c)
+    return out
+
+
 class _resolve_called_lambdas(ast.NodeTransformer):
     "Resolve any `(lambda x: x + 1)(y)` calls into just `y + 1`."
 
@@ -396,16 +422,16 @@ class _resolve_called_lambdas(ast.NodeTransformer):
             # Ensure the lambda has arguments and a body
             # Inline only when python would bind exactly the positional parameters: keyword
             # arguments and keyword-only, positional-only, * and ** parameters are left as a call.
-            largs = lambda_node.args
-            if (
-                len(largs.args) == len(node.args)
-                and len(node.keywords) == 0
-                and not (largs.posonlyargs or largs.kwonlyargs or largs.vararg or largs.kwarg)
-            ):
-                arg_map = {
-                    lambda_node.args.args[i].arg: self.visit(node.args[i])
-                    for i in range(len(lambda_node.args.args))
-                }
+            if _plainly_called(node):
+                args = [self.visit(a) for a in node.args]
+                used = {n.id for a in args for n in ast.walk(a) if isinstance(n, ast.Name)}
+                if used & _inner_binders(lambda_node.body):
+                    # An argument mentions a name that a lambda or comprehension inside the body
+                    # binds again: substituting would capture it, so the call is left as it is.
+                    node.args = args
+                    node.func = self.visit(node.func)
+                    return node
+                arg_map = {a.arg: v for a, v in zip(lambda_node.args.args, args)}
                 self._arg_map_list.append(arg_map)
 
                 result = self.visit(lambda_node.body)
